@@ -11,21 +11,21 @@ package datalog
 // symbol table
 
 //@ func (t *SymbolTable) Str(sym String) (result string)
-//@ serves C06 C07 C10
+//@ serves C06 C07 C10 C19
 //@ requires t != nil
 //@ modifies nothing
 //@ ensures default: sym < 28 ==> result == DEFAULT_SYMBOLS[sym]
 //@ ensures table: 1024 <= sym && sym - 1024 < len(*t) ==> result == (*t)[sym-1024]
 
 //@ func (t *SymbolTable) Var(v Variable) (result string)
-//@ serves C07 C10
+//@ serves C07 C10 C19
 //@ requires t != nil
 //@ modifies nothing
 //@ ensures default: v < 28 ==> result == DEFAULT_SYMBOLS[v]
 //@ ensures table: 1024 <= v && v - 1024 < len(*t) ==> result == (*t)[v-1024]
 
 //@ func (t *SymbolTable) Insert(s string) (result String)
-//@ serves C06 C07 C08 C10
+//@ serves C06 C07 C08 C10 C19
 //@ requires t != nil
 //@ modifies *t, spare(*t)
 //@ loop 0 invariant forall j int :: 0 <= j && j < #i ==> DEFAULT_SYMBOLS[j] != s
@@ -39,7 +39,7 @@ package datalog
 //@ ensures known_symbol: (exists j int :: 0 <= j && j < old(len(*t)) && old((*t)[j]) == s) ==> *t == old(*t)
 
 //@ func (t *SymbolTable) Len() (result int)
-//@ serves C07 C08
+//@ serves C07 C08 C19
 //@ requires t != nil
 //@ modifies nothing
 //@ ensures result == len(*t)
@@ -52,7 +52,7 @@ package datalog
 //@ ensures owns_capacity[C08 C19]: fresh(arr(*result))
 
 //@ func (t *SymbolTable) IsDisjoint(other *SymbolTable) (result bool)
-//@ serves C07 C08 C10
+//@ serves C07 C08 C10 C19
 //@ requires t != nil && other != nil
 //@ modifies nothing
 //@ loop 0 invariant m != nil && fresh(m) && (forall j int :: { (*t)[j] } 0 <= j && j < #i ==> has(m, (*t)[j])) && (forall q string :: has(m, q) ==> (exists j int :: { (*t)[j] } 0 <= j && j < #i && (*t)[j] == q))
@@ -60,7 +60,7 @@ package datalog
 //@ ensures result == (forall j int, k int :: 0 <= j && j < len(*t) && 0 <= k && k < len(*other) ==> (*t)[j] != (*other)[k])
 
 //@ func (t *SymbolTable) Extend(other *SymbolTable)
-//@ serves C07 C08 C10
+//@ serves C07 C08 C10 C19
 //@ requires t != nil && other != nil
 //@ modifies *t, spare(*t)
 //@ loop 0 invariant tableGrown(*t, old(*t)) && (forall j int :: { (*t)[j] } 0 <= j && j < old(len(*t)) ==> (*t)[j] == old((*t)[j]))
@@ -70,7 +70,7 @@ package datalog
 // evaluation stack
 
 //@ func (s *stack) Push(v Term) (err error)
-//@ serves C06 C10
+//@ serves C06 C10 C19
 //@ requires s != nil
 //@ modifies *s, spare(*s)
 //@ ensures full: old(len(*s)) >= 1000 ==> err != nil && *s == old(*s)
@@ -78,7 +78,7 @@ package datalog
 //@ ensures pushed: old(len(*s)) < 1000 ==> err == nil && len(*s) == old(len(*s)) + 1 && (*s)[len(*s)-1] == v && (forall j int :: 0 <= j && j < old(len(*s)) ==> (*s)[j] == old((*s)[j]))
 
 //@ func (s *stack) Pop() (v Term, err error)
-//@ serves C06 C10
+//@ serves C06 C10 C19
 //@ requires s != nil
 //@ modifies *s
 //@ ensures empty: old(len(*s)) == 0 ==> err != nil && v == nil && *s == old(*s)
@@ -88,7 +88,7 @@ package datalog
 // operators (C06: one ensures row per line of the operator table)
 
 //@ func (Negate) Eval(value Term, _ *SymbolTable) (res Term, err error)
-//@ serves C06 C10
+//@ serves C06 C10 C19
 //@ requires value != nil
 //@ modifies nothing
 //@ ensures wf: err == nil ==> termWF(res)
@@ -96,14 +96,14 @@ package datalog
 //@ ensures illtyped: !(value is Bool) ==> err != nil && res == nil
 
 //@ func (Parens) Eval(value Term, _ *SymbolTable) (res Term, err error)
-//@ serves C06 C10
+//@ serves C06 C10 C19
 //@ requires termWF(value)
 //@ modifies nothing
 //@ ensures wf: err == nil ==> termWF(res)
 //@ ensures identity: err == nil && res == value
 
 //@ func (Length) Eval(value Term, symbols *SymbolTable) (res Term, err error)
-//@ serves C06 C10
+//@ serves C06 C10 C19
 //@ requires value != nil && symbols != nil
 //@ modifies nothing
 //@ ensures wf: err == nil ==> termWF(res)
@@ -113,7 +113,7 @@ package datalog
 //@ ensures illtyped: !(value is String) && !(value is Bytes) && !(value is Set) ==> err != nil && res == nil
 
 //@ func (LessThan) Eval(left Term, right Term, _ *SymbolTable) (res Term, err error)
-//@ serves C06 C10
+//@ serves C06 C10 C19
 //@ requires left != nil && right != nil
 //@ modifies nothing
 //@ ensures wf: err == nil ==> termWF(res)
@@ -122,7 +122,7 @@ package datalog
 //@ ensures illtyped: !(left is Integer && right is Integer) && !(left is Date && right is Date) ==> err != nil && res == nil
 
 //@ func (LessOrEqual) Eval(left Term, right Term, _ *SymbolTable) (res Term, err error)
-//@ serves C06 C10
+//@ serves C06 C10 C19
 //@ requires left != nil && right != nil
 //@ modifies nothing
 //@ ensures wf: err == nil ==> termWF(res)
@@ -131,7 +131,7 @@ package datalog
 //@ ensures illtyped: !(left is Integer && right is Integer) && !(left is Date && right is Date) ==> err != nil && res == nil
 
 //@ func (GreaterThan) Eval(left Term, right Term, _ *SymbolTable) (res Term, err error)
-//@ serves C06 C10
+//@ serves C06 C10 C19
 //@ requires left != nil && right != nil
 //@ modifies nothing
 //@ ensures wf: err == nil ==> termWF(res)
@@ -140,7 +140,7 @@ package datalog
 //@ ensures illtyped: !(left is Integer && right is Integer) && !(left is Date && right is Date) ==> err != nil && res == nil
 
 //@ func (GreaterOrEqual) Eval(left Term, right Term, _ *SymbolTable) (res Term, err error)
-//@ serves C06 C10
+//@ serves C06 C10 C19
 //@ requires left != nil && right != nil
 //@ modifies nothing
 //@ ensures wf: err == nil ==> termWF(res)
@@ -149,21 +149,21 @@ package datalog
 //@ ensures illtyped: !(left is Integer && right is Integer) && !(left is Date && right is Date) ==> err != nil && res == nil
 
 //@ func (And) Eval(left Term, right Term, _ *SymbolTable) (res Term, err error)
-//@ serves C06 C10
+//@ serves C06 C10 C19
 //@ modifies nothing
 //@ ensures wf: err == nil ==> termWF(res)
 //@ ensures strict: left is Bool && right is Bool ==> err == nil && res == Bool(left.(Bool) && right.(Bool))
 //@ ensures illtyped: !(left is Bool && right is Bool) ==> err != nil && res == nil
 
 //@ func (Or) Eval(left Term, right Term, _ *SymbolTable) (res Term, err error)
-//@ serves C06 C10
+//@ serves C06 C10 C19
 //@ modifies nothing
 //@ ensures wf: err == nil ==> termWF(res)
 //@ ensures strict: left is Bool && right is Bool ==> err == nil && res == Bool(left.(Bool) || right.(Bool))
 //@ ensures illtyped: !(left is Bool && right is Bool) ==> err != nil && res == nil
 
 //@ func (Add) Eval(left Term, right Term, symbols *SymbolTable) (res Term, err error)
-//@ serves C06 C10
+//@ serves C06 C10 C19
 //@ requires symbols != nil
 //@ modifies *symbols, spare(*symbols)
 //@ ensures wf: err == nil ==> termWF(res)
@@ -174,7 +174,7 @@ package datalog
 //@ ensures table: tableGrown(*symbols, old(*symbols)) && (forall j int :: 0 <= j && j < old(len(*symbols)) ==> (*symbols)[j] == old((*symbols)[j]))
 
 //@ func (Sub) Eval(left Term, right Term, _ *SymbolTable) (res Term, err error)
-//@ serves C06 C10
+//@ serves C06 C10 C19
 //@ modifies nothing
 //@ ensures wf: err == nil ==> termWF(res)
 //@ ensures exact: left is Integer && right is Integer && in64(left.(Integer) - right.(Integer)) ==> err == nil && res == Integer(left.(Integer) - right.(Integer))
@@ -182,7 +182,7 @@ package datalog
 //@ ensures illtyped: !(left is Integer && right is Integer) ==> err != nil && res == nil
 
 //@ func (Mul) Eval(left Term, right Term, _ *SymbolTable) (res Term, err error)
-//@ serves C06 C10
+//@ serves C06 C10 C19
 //@ modifies nothing
 //@ ensures wf: err == nil ==> termWF(res)
 //@ ensures exact: left is Integer && right is Integer && in64(left.(Integer) * right.(Integer)) ==> err == nil && res == Integer(left.(Integer) * right.(Integer))
@@ -190,7 +190,7 @@ package datalog
 //@ ensures illtyped: !(left is Integer && right is Integer) ==> err != nil && res == nil
 
 //@ func (Div) Eval(left Term, right Term, _ *SymbolTable) (res Term, err error)
-//@ serves C06 C10
+//@ serves C06 C10 C19
 //@ modifies nothing
 //@ ensures wf: err == nil ==> termWF(res)
 //@ ensures div_by_zero: left is Integer && right is Integer && right.(Integer) == 0 ==> err == ErrExprDivByZero && res == nil
@@ -199,7 +199,7 @@ package datalog
 //@ ensures illtyped: !(left is Integer && right is Integer) ==> err != nil && res == nil
 
 //@ func (Prefix) Eval(left Term, right Term, symbols *SymbolTable) (res Term, err error)
-//@ serves C06 C10
+//@ serves C06 C10 C19
 //@ requires symbols != nil
 //@ modifies nothing
 //@ ensures wf: err == nil ==> termWF(res)
@@ -207,7 +207,7 @@ package datalog
 //@ ensures illtyped: !(left is String && right is String) ==> err != nil && res == nil
 
 //@ func (Suffix) Eval(left Term, right Term, symbols *SymbolTable) (res Term, err error)
-//@ serves C06 C10
+//@ serves C06 C10 C19
 //@ requires symbols != nil
 //@ modifies nothing
 //@ ensures wf: err == nil ==> termWF(res)
@@ -218,14 +218,14 @@ package datalog
 // sets
 
 //@ func (s Set) contains(t Term) (result bool)
-//@ serves C06 C10
+//@ serves C06 C10 C19
 //@ requires setWF(s) && (t is Set ==> setWF(t.(Set)))
 //@ modifies nothing
 //@ loop 0 invariant forall j int :: 0 <= j && j < #i ==> !scalarEq(s[j], t)
 //@ ensures result == memberOf(t, s)
 
 //@ func (s Set) Equal(t Term) (result bool)
-//@ serves C06 C10
+//@ serves C06 C10 C19
 //@ requires setWF(s) && (t is Set ==> setWF(t.(Set)))
 //@ modifies nothing
 //@ loop 0 invariant forall j int :: 0 <= j && j < #i ==> memberOf(s[j], t.(Set))
@@ -233,7 +233,7 @@ package datalog
 //@ ensures sets: t is Set ==> result == (len(t.(Set)) == len(s) && (forall j int :: 0 <= j && j < len(s) ==> memberOf(s[j], t.(Set))))
 
 //@ func (s Set) Intersect(t Set) (result Set)
-//@ serves C06 C10
+//@ serves C06 C10 C19
 //@ requires setWF(s) && setWF(t)
 //@ modifies nothing
 //@ loop 0 invariant fresh(arr(result)) && setWF(result)
@@ -244,7 +244,7 @@ package datalog
 //@ ensures complete: forall j int :: { s[j] } 0 <= j && j < len(s) && memberOf(s[j], t) ==> memberOf(s[j], result)
 
 //@ func (s Set) Union(t Set) (result Set)
-//@ serves C06 C10
+//@ serves C06 C10 C19
 //@ requires setWF(s) && setWF(t)
 //@ modifies nothing
 //@ loop 0 invariant fresh(arr(result)) && setWF(result) && len(result) >= len(s)
@@ -260,7 +260,7 @@ package datalog
 // operators over sets, equality, regular expressions
 
 //@ func (Equal) Eval(left Term, right Term, _ *SymbolTable) (res Term, err error)
-//@ serves C06 C10
+//@ serves C06 C10 C19
 //@ requires termWF(left) && termWF(right)
 //@ modifies nothing
 //@ ensures wf: err == nil ==> termWF(res)
@@ -270,7 +270,7 @@ package datalog
 //@ ensures illtyped: !sameKind(left, right) || left is Variable ==> err != nil && res == nil
 
 //@ func (Contains) Eval(left Term, right Term, symbols *SymbolTable) (res Term, err error)
-//@ serves C06 C10
+//@ serves C06 C10 C19
 //@ requires termWF(left) && termWF(right) && symbols != nil
 //@ modifies nothing
 //@ ensures wf: err == nil ==> termWF(res)
@@ -285,7 +285,7 @@ package datalog
 //@ ensures illtyped: (!(left is String) && !(left is Set)) || (!(left is String) && right is Variable) ==> err != nil && res == nil
 
 //@ func (Intersection) Eval(left Term, right Term, _ *SymbolTable) (res Term, err error)
-//@ serves C06 C10
+//@ serves C06 C10 C19
 //@ requires termWF(left) && termWF(right)
 //@ modifies nothing
 //@ ensures wf: err == nil ==> termWF(res)
@@ -294,7 +294,7 @@ package datalog
 //@ ensures illtyped: !(left is Set && right is Set) ==> err != nil && res == nil
 
 //@ func (Union) Eval(left Term, right Term, _ *SymbolTable) (res Term, err error)
-//@ serves C06 C10
+//@ serves C06 C10 C19
 //@ requires termWF(left) && termWF(right)
 //@ modifies nothing
 //@ ensures wf: err == nil ==> termWF(res)
@@ -303,7 +303,7 @@ package datalog
 //@ ensures illtyped: !(left is Set && right is Set) ==> err != nil && res == nil
 
 //@ func (Regex) Eval(left Term, right Term, symbols *SymbolTable) (res Term, err error)
-//@ serves C06 C10
+//@ serves C06 C10 C19
 //@ requires symbols != nil
 //@ modifies nothing
 //@ ensures wf: err == nil ==> termWF(res)
@@ -316,14 +316,14 @@ package datalog
 // is verified against them)
 
 //@ iface (f UnaryOpFunc) Eval(value Term, symbols *SymbolTable) (res Term, err error)
-//@ serves C06 C10
+//@ serves C06 C10 C19
 //@ requires termWF(value) && symbols != nil
 //@ modifies nothing
 //@ ensures wf: err == nil ==> termWF(res)
 //@ ensures no_result_on_error: err != nil ==> res == nil
 
 //@ iface (f BinaryOpFunc) Eval(left Term, right Term, symbols *SymbolTable) (res Term, err error)
-//@ serves C06 C10
+//@ serves C06 C10 C19
 //@ requires termWF(left) && termWF(right) && symbols != nil
 //@ modifies *symbols, spare(*symbols)
 //@ ensures wf: err == nil ==> termWF(res)
@@ -334,7 +334,7 @@ package datalog
 // expression evaluation
 
 //@ func (e *Expression) Evaluate(values map[Variable]*Term, symbols *SymbolTable) (res Term, err error)
-//@ serves C06 C10
+//@ serves C06 C10 C19
 //@ requires e != nil && symbols != nil && exprWF(*e) && bindingsWF(values)
 //@ modifies *symbols, spare(*symbols)
 //@ loop 0 invariant ptr: s != nil && fresh(s)
@@ -357,32 +357,32 @@ package datalog
 // terms, predicates, fact sets (C05 leaves)
 
 //@ iface (t Term) Equal(o Term) (result bool)
-//@ serves C05 C06 C10
+//@ serves C05 C06 C10 C19
 //@ requires termWF(t) && (o is Set ==> setWF(o.(Set)))
 //@ modifies nothing
 //@ ensures result == termEq(t, o)
 
 //@ func (p Predicate) Equal(p2 Predicate) (result bool)
-//@ serves C05 C10 C12
+//@ serves C05 C10 C12 C19
 //@ requires predWF(p) && predWF(p2)
 //@ modifies nothing
 //@ loop 0 invariant forall j int :: 0 <= j && j < #i ==> termEq(p.Terms[j], p2.Terms[j])
 //@ ensures result == predEq(p, p2)
 
 //@ func (p Predicate) Match(p2 Predicate) (result bool)
-//@ serves C05 C10
+//@ serves C05 C10 C19
 //@ requires predWF(p) && predWF(p2)
 //@ modifies nothing
 //@ loop 0 invariant forall j int :: 0 <= j && j < #i ==> p.Terms[j] is Variable || p2.Terms[j] is Variable || termEq(p.Terms[j], p2.Terms[j])
 //@ ensures result == predMatch(p, p2)
 
 //@ func (p Predicate) Clone() (res Predicate)
-//@ serves C05 C08 C10
+//@ serves C05 C08 C10 C19
 //@ modifies nothing
 //@ ensures res.Name == p.Name && len(res.Terms) == len(p.Terms) && fresh(arr(res.Terms)) && (forall i int :: 0 <= i && i < len(p.Terms) ==> res.Terms[i] == p.Terms[i])
 
 //@ func (s *FactSet) Insert(f Fact) (result bool)
-//@ serves C05 C10 C12
+//@ serves C05 C10 C12 C19
 //@ requires s != nil && factsWF(*s) && predWF(f.Predicate)
 //@ modifies *s, spare(*s)
 //@ loop 0 invariant forall j int :: 0 <= j && j < #i ==> !predEq(old((*s)[j].Predicate), f.Predicate)
@@ -393,7 +393,7 @@ package datalog
 //@ ensures same_or_fresh_array: (arr(*s) == old(arr(*s)) && off(*s) == old(off(*s)) && cap(*s) == old(cap(*s))) || fresh(arr(*s))
 
 //@ func advanceIndexes(current *int, indexes *[]int, facts *FactSet) (result bool)
-//@ serves C05 C10
+//@ serves C05 C10 C19
 //@ requires current != nil && indexes != nil && facts != nil
 //@ requires len(*facts) >= 1 && 0 <= *current && *current < len(*indexes)
 //@ requires forall j int :: 0 <= j && j < len(*indexes) ==> 0 <= (*indexes)[j] && (*indexes)[j] < len(*facts)
@@ -407,7 +407,7 @@ package datalog
 //@ ensures exhausted: !result ==> (forall j int :: 0 <= j && j <= old(*current) ==> old((*indexes)[j]) == len(*facts) - 1)
 
 //@ func (s *FactSet) InsertAll(facts []Fact)
-//@ serves C05 C10 C12
+//@ serves C05 C10 C12 C19
 //@ requires s != nil && factsWF(*s) && (forall k int :: { facts[k] } 0 <= k && k < len(facts) ==> predWF(facts[k].Predicate))
 //@ requires arr(facts) != arr(*s) || len(facts) == 0
 //@ modifies *s, spare(*s)
@@ -424,7 +424,7 @@ package datalog
 // variable bindings
 
 //@ func (m MatchedVariables) Insert(k Variable, v Term) (result bool)
-//@ serves C05 C10
+//@ serves C05 C10 C19
 //@ requires m != nil && termWF(v) && partialBindingsWF(m)
 //@ modifies mapof(m)
 //@ ensures keeps_wf: partialBindingsWF(m)
@@ -433,14 +433,14 @@ package datalog
 //@ ensures others: forall q Variable :: q != k ==> has(m, q) == old(has(m, q)) && m[q] == old(m[q])
 
 //@ func (m MatchedVariables) Complete() (result map[Variable]*Term)
-//@ serves C05 C10
+//@ serves C05 C10 C19
 //@ modifies nothing
 //@ loop 0 invariant forall q Variable :: seen(q) ==> m[q] != nil
 //@ ensures all_bound: result != nil ==> result == m && (forall q Variable :: has(m, q) ==> m[q] != nil)
 //@ ensures unbound: m != nil && result == nil ==> (exists q Variable :: has(m, q) && m[q] == nil)
 
 //@ func (m MatchedVariables) Clone() (res MatchedVariables)
-//@ serves C05 C10
+//@ serves C05 C10 C19
 //@ modifies nothing
 //@ loop 0 invariant res != nil && fresh(res) && (forall q Variable :: seen(q) ==> has(m, q) && has(res, q) && res[q] == m[q]) && (forall q Variable :: has(res, q) ==> seen(q))
 //@ ensures copy: res != nil && fresh(res) && (forall q Variable :: { dom(res, q) } has(res, q) == has(m, q)) && (forall q Variable :: { dom(res, q) } has(m, q) ==> res[q] == m[q])
@@ -449,7 +449,7 @@ package datalog
 // worlds
 
 //@ func (w *World) AddFact(f Fact)
-//@ serves C03 C04 C05 C10 C12
+//@ serves C03 C04 C05 C10 C12 C19
 //@ requires w != nil && w.facts != nil
 //@ requires factsWF(*w.facts)
 //@ requires predWF(f.Predicate)
@@ -461,20 +461,20 @@ package datalog
 //@ ensures same_or_fresh_array: (arr(*w.facts) == old(arr(*w.facts)) && off(*w.facts) == old(off(*w.facts)) && cap(*w.facts) == old(cap(*w.facts))) || fresh(arr(*w.facts))
 
 //@ func (w *World) AddRule(r Rule)
-//@ serves C03 C04 C05 C10
+//@ serves C03 C04 C05 C10 C19
 //@ requires w != nil
 //@ modifies w.rules, spare(w.rules)
 //@ ensures same_or_fresh_array: (arr(w.rules) == old(arr(w.rules)) && off(w.rules) == old(off(w.rules)) && cap(w.rules) == old(cap(w.rules))) || fresh(arr(w.rules))
 //@ ensures len(w.rules) == old(len(w.rules)) + 1 && w.rules[len(w.rules)-1] == r && (forall j int :: { w.rules[j] } 0 <= j && j < old(len(w.rules)) ==> w.rules[j] == old(w.rules[j]))
 
 //@ func (w *World) ResetRules()
-//@ serves C02 C03 C04 C10
+//@ serves C02 C03 C04 C10 C19
 //@ requires w != nil
 //@ modifies w.rules
 //@ ensures len(w.rules) == 0 && cap(w.rules) == 0
 
 //@ func (w *World) Clone() (res *World)
-//@ serves C02 C03 C04 C10 C11 C13
+//@ serves C02 C03 C04 C10 C11 C13 C19
 //@ requires w != nil && w.facts != nil
 //@ modifies nothing
 //@ ensures fresh_world: res != nil && fresh(res) && res.facts != nil && fresh(res.facts) && res.facts != w.facts
@@ -483,19 +483,19 @@ package datalog
 //@ ensures limits_kept: res.runLimits == w.runLimits
 
 //@ func (w *World) Facts() (res *FactSet)
-//@ serves C10 C18
+//@ serves C10 C18 C19
 //@ requires w != nil
 //@ modifies nothing
 //@ ensures res == w.facts
 
 //@ func (w *World) Rules() (res []Rule)
-//@ serves C10 C18
+//@ serves C10 C18 C19
 //@ requires w != nil
 //@ modifies nothing
 //@ ensures res == w.rules
 
 //@ func NewWorld(opts []WorldOption) (res *World)
-//@ serves C10 C11 C13
+//@ serves C10 C11 C13 C19
 //@ requires forall j int :: { opts[j] } 0 <= j && j < len(opts) ==> opts[j] != nil
 //@ modifies nothing
 //@ loop 0 invariant w != nil && fresh(w) && w.facts != nil && fresh(w.facts) && len(*w.facts) == 0 && cap(*w.facts) == 0 && len(w.rules) == 0
@@ -506,7 +506,7 @@ package datalog
 // Assumed for every WorldOption value (the type is exported, so callers may
 // define their own): an option only changes the run limits of the world it is given.
 //@ functype WorldOption(w *World)
-//@ serves C10 C11 C13
+//@ serves C10 C11 C13 C19
 //@ requires w != nil
 //@ modifies w.runLimits
 //@ defines w.runLimits == woApply(self, old(w.runLimits))
@@ -516,7 +516,7 @@ package datalog
 // and Rule.Apply consumes its channel (DESIGN.md 2.6)
 
 //@ func combine$1(c chan)
-//@ serves C05 C10 C11
+//@ serves C05 C10 C11 C19
 //@ requires c != nil && facts != nil && factsWF(*facts) && predsWF(predicates) && exprsWF(expressions) && syms != nil && partialBindingsWF(variables)
 //@ modifies *syms, spare(*syms)
 //@ chan c yields x: x.error != nil || (x.MatchedVariables != nil && bindingsWF(x.MatchedVariables))
@@ -552,13 +552,13 @@ package datalog
 //@ loop 4 invariant !sentFinal(c) && tableGrown(*syms, old(*syms)) && tableGrownInLoop(*syms, pre(*syms)) && complete_vars != nil && bindingsWF(complete_vars)
 
 //@ func combine(variables MatchedVariables, predicates []Predicate, expressions []Expression, facts *FactSet, syms *SymbolTable) (res chan)
-//@ serves C05 C10 C11
+//@ serves C05 C10 C11 C19
 //@ requires facts != nil && factsWF(*facts) && predsWF(predicates) && exprsWF(expressions) && syms != nil && partialBindingsWF(variables)
 //@ modifies nothing
 //@ ensures res != nil
 
 //@ func (r Rule) Apply(facts *FactSet, newFacts *FactSet, syms *SymbolTable) (err error)
-//@ serves C05 C10 C11
+//@ serves C05 C10 C11 C19
 //@ requires facts != nil && factsWF(*facts) && newFacts != nil && factsWF(*newFacts) && ruleWF(r) && syms != nil && newFacts != facts && (arr(*facts) != arr(*newFacts) || cap(*newFacts) == 0)
 //@ modifies *newFacts, spare(*newFacts), *syms, spare(*syms)
 //@ loop 0 modifies mapof(variables)
@@ -582,7 +582,7 @@ package datalog
 // or for the deadline (C05 C11)
 
 //@ func World.Run$1()
-//@ serves C05 C10 C11
+//@ serves C05 C10 C11 C19
 //@ requires w != nil && w.facts != nil && factsWF(*w.facts) && rulesWF(w.rules) && syms != nil && ctx != nil
 //@ modifies *w.facts, spare(*w.facts), *syms, spare(*syms)
 //@ chan done sends_at_most 1
@@ -603,7 +603,7 @@ package datalog
 //@ loop 1 invariant (arr(newFacts) == pre(arr(newFacts)) && off(newFacts) == pre(off(newFacts)) && cap(newFacts) == pre(cap(newFacts)) && len(newFacts) >= pre(len(newFacts))) || freshInLoop(arr(newFacts))
 
 //@ func (w *World) Run(syms *SymbolTable) (err error)
-//@ serves C04 C05 C10 C11
+//@ serves C04 C05 C10 C11 C19
 //@ requires w != nil && w.facts != nil && factsWF(*w.facts) && rulesWF(w.rules) && syms != nil
 //@ modifies *w.facts, spare(*w.facts), *syms, spare(*syms)
 //@ ensures success_is_within_limits[C11]: err == nil ==> len(*w.facts) < w.runLimits.maxFacts
@@ -611,7 +611,7 @@ package datalog
 //@ ensures grown: err != ErrWorldRunLimitTimeout ==> tableGrown(*syms, old(*syms)) && ((arr(*w.facts) == old(arr(*w.facts)) && off(*w.facts) == old(off(*w.facts)) && cap(*w.facts) == old(cap(*w.facts)) && len(*w.facts) >= old(len(*w.facts))) || fresh(arr(*w.facts)))
 
 //@ func (w *World) QueryRule(rule Rule, syms *SymbolTable) (res *FactSet)
-//@ serves C04 C05 C10
+//@ serves C04 C05 C10 C19
 //@ requires w != nil && w.facts != nil && factsWF(*w.facts) && ruleWF(rule) && syms != nil
 //@ modifies *syms, spare(*syms)
 //@ ensures res != nil && fresh(res) && factsWF(*res) && *w.facts == old(*w.facts)
@@ -621,18 +621,18 @@ package datalog
 // printing (read-only; C10: never panics on decoded content)
 
 //@ iface (t Term) String() (res string)
-//@ serves C10
+//@ serves C10 C19
 //@ requires termWF(t)
 //@ modifies nothing
 
 //@ func (s Set) String() (res string)
-//@ serves C10
+//@ serves C10 C19
 //@ requires setWF(s)
 //@ modifies nothing
 //@ loop 0 invariant len(eltStr) == #i && cap(eltStr) == len(s) && fresh(arr(eltStr)) && off(eltStr) == 0
 
 //@ func (s *stringstack) Push(v string) (err error)
-//@ serves C10
+//@ serves C10 C19
 //@ requires s != nil
 //@ modifies *s, spare(*s)
 //@ ensures full: old(len(*s)) >= 1000 ==> err != nil && *s == old(*s)
@@ -640,74 +640,74 @@ package datalog
 //@ ensures same_or_fresh_array: (arr(*s) == old(arr(*s)) && off(*s) == old(off(*s)) && cap(*s) == old(cap(*s))) || fresh(arr(*s))
 
 //@ func (s *stringstack) Pop() (v string, err error)
-//@ serves C10
+//@ serves C10 C19
 //@ requires s != nil
 //@ modifies *s
 //@ ensures empty: old(len(*s)) == 0 ==> err != nil && *s == old(*s)
 //@ ensures popped: old(len(*s)) > 0 ==> err == nil && len(*s) == old(len(*s)) - 1 && arr(*s) == old(arr(*s)) && off(*s) == old(off(*s)) && cap(*s) == old(cap(*s))
 
 //@ func (op UnaryOp) Print(value string) (res string)
-//@ serves C10
+//@ serves C10 C19
 //@ requires op.UnaryOpFunc != nil
 //@ modifies nothing
 
 //@ func (op BinaryOp) Print(left string, right string) (res string)
-//@ serves C10
+//@ serves C10 C19
 //@ requires op.BinaryOpFunc != nil
 //@ modifies nothing
 
 //@ func (e *Expression) Print(symbols *SymbolTable) (res string)
-//@ serves C10
+//@ serves C10 C19
 //@ requires e != nil && symbols != nil && exprWF(*e)
 //@ modifies nothing
 //@ loop 0 invariant s != nil && fresh(s) && (cap(*s) == 0 || fresh(arr(*s)))
 
 //@ func (d SymbolDebugger) Predicate(p Predicate) (res string)
-//@ serves C10
+//@ serves C10 C19
 //@ requires d.SymbolTable != nil
 //@ modifies nothing
 //@ loop 0 invariant len(strs) == len(p.Terms) && fresh(arr(strs))
 
 //@ func (d SymbolDebugger) Expression(e Expression) (res string)
-//@ serves C10
+//@ serves C10 C19
 //@ requires d.SymbolTable != nil && exprWF(e)
 //@ modifies nothing
 
 //@ func (d SymbolDebugger) Rule(r Rule) (res string)
-//@ serves C10
+//@ serves C10 C19
 //@ requires d.SymbolTable != nil && exprsWF(r.Expressions)
 //@ modifies nothing
 //@ loop 0 invariant len(preds) == len(r.Body) && fresh(arr(preds))
 //@ loop 1 invariant len(preds) == len(r.Body) && fresh(arr(preds)) && len(expressions) == len(r.Expressions) && fresh(arr(expressions))
 
 //@ func (d SymbolDebugger) CheckQuery(r Rule) (res string)
-//@ serves C10
+//@ serves C10 C19
 //@ requires d.SymbolTable != nil && exprsWF(r.Expressions)
 //@ modifies nothing
 //@ loop 0 invariant len(preds) == len(r.Body) && fresh(arr(preds))
 //@ loop 1 invariant len(preds) == len(r.Body) && fresh(arr(preds)) && len(expressions) == len(r.Expressions) && fresh(arr(expressions))
 
 //@ func (d SymbolDebugger) Check(c Check) (res string)
-//@ serves C10
+//@ serves C10 C19
 //@ requires d.SymbolTable != nil && (forall j int :: { c.Queries[j] } 0 <= j && j < len(c.Queries) ==> exprsWF(c.Queries[j].Expressions))
 //@ modifies nothing
 //@ loop 0 invariant len(queries) == len(c.Queries) && fresh(arr(queries))
 
 //@ func (d SymbolDebugger) World(w *World) (res string)
-//@ serves C10
+//@ serves C10 C19
 //@ requires d.SymbolTable != nil && w != nil && w.facts != nil && (forall j int :: { w.rules[j] } 0 <= j && j < len(w.rules) ==> exprsWF(w.rules[j].Expressions))
 //@ modifies nothing
 //@ loop 0 invariant len(facts) == len(*w.facts) && fresh(arr(facts))
 //@ loop 1 invariant len(facts) == len(*w.facts) && fresh(arr(facts)) && len(rules) == len(w.rules) && fresh(arr(rules))
 
 //@ func (d SymbolDebugger) FactSet(s *FactSet) (res string)
-//@ serves C10
+//@ serves C10 C19
 //@ requires d.SymbolTable != nil && s != nil
 //@ modifies nothing
 //@ loop 0 invariant len(strs) == len(*s) && fresh(arr(strs))
 
 //@ func (t *SymbolTable) SplitOff(at int) (res *SymbolTable)
-//@ serves C07 C08 C10
+//@ serves C07 C08 C10 C19
 //@ requires t != nil && 0 <= at
 //@ modifies *t
 //@ panics if at > len(*t)
@@ -715,7 +715,7 @@ package datalog
 //@ ensures head: len(*t) == at && arr(*t) == old(arr(*t)) && off(*t) == old(off(*t)) && cap(*t) == old(cap(*t))
 
 //@ func (t *SymbolTable) Sym(s string) (res Term)
-//@ serves C07 C10
+//@ serves C07 C10 C19
 //@ requires t != nil
 //@ modifies nothing
 //@ loop 0 invariant forall j int :: 0 <= j && j < #i ==> DEFAULT_SYMBOLS[j] != s
